@@ -22,7 +22,9 @@ EXPLANATION = (
     "result, nothing uses fd after close, nothing writes between fini and close. R06.2: the only create/truncate/unlink/rename sites "
     "relative to the spool directory are the dot-file, and the journal without O_TRUNC; the live name is only a rename target or read. "
     "R06.3: every checkpoint-path call that reaches write(2) makes a failure observable to the rename decision. R06.4: dirty marking "
-    "and shutdown checkpoint. R06.5: reload filter literals agree with the rename target and the owner keyword is read back.")
+    "and shutdown checkpoint. R06.5: reload filter literals agree with the rename target and the owner keyword is read back. R06.6 (= R05.6): the buffered writer "
+    "behind every checkpoint never formats from a consumed va_list, so a task larger than the 4096-byte buffer cannot crash the writer "
+    "half-way through a file.")
 NOT_DECIDED = ("that a reloaded daemon schedules exactly the accepted set (needs execution of a reload); atomicity of rename(2) "
                "is an OS guarantee and an assumption")
 TRUSTED = ["clang 14 parser/CFG builder", "echse-facts extractor", "python rule engines in /verif/sa", "POSIX rename(2) atomicity"]
